@@ -216,6 +216,10 @@ void mcount_arch_find_module(struct mcount_dynamic_info *mdi, struct uftrace_sym
 		if (sym->name[0] == '_')
 			continue;
 
+		/* skip 'endbr64' like patch_fentry_code() does */
+		if (!memcmp(code_addr, endbr64, sizeof(endbr64)))
+			code_addr += sizeof(endbr64);
+
 		/*
 		 * there might be some chances of not having patchable section
 		 * '__patchable_function_entries' but shows the NOPs pattern.
